@@ -94,3 +94,34 @@ Theorem C14_compass_cardinal_consistent p0 p1 : distinct p0 p1 ->
   (c = 6%Z -> k = 3%Z \/ k = 2%Z) /\ (c = 7%Z -> k = 3%Z \/ k = 0%Z).
 Proof. exact (compass_cardinal_consistent p0 p1). Qed.
 Print Assumptions C14_compass_cardinal_consistent.
+
+(* the direction predicates of ortho.h, translated as well *)
+Theorem C14_card_predicates_algebra d0 d1 : is_card d0 -> is_card d1 ->
+  arePerpendicular d0 d1 = negb (sameDimension d0 d1) /\
+  sameDimension d0 d0 = true /\ sameDimension d0 (card_flip d0) = true /\
+  sameDimension d0 d1 = sameDimension d1 d0 /\
+  isHorizontalCard d0 = negb (isVerticalCard d0) /\ isIncreasingCard d0 = negb (isDecreasingCard d0) /\
+  (sameDimension d0 d1 = true <-> isHorizontalCard d0 = isHorizontalCard d1) /\
+  isIncreasingCard (card_flip d0) = isDecreasingCard d0 /\ isHorizontalCard (card_flip d0) = isHorizontalCard d0 /\
+  is_card (card_flip d0) /\ card_flip (card_flip d0) = d0.
+Proof. exact (card_predicates_algebra d0 d1). Qed.
+Print Assumptions C14_card_predicates_algebra.
+
+Theorem C14_compass_predicates_on_cardinals d : is_card d ->
+  isHorizontal d = isHorizontalCard d /\ isVertical d = isVerticalCard d /\
+  isIncreasing d = isIncreasingCard d /\ isDecreasing d = isDecreasingCard d.
+Proof. exact (compass_predicates_on_cardinals d). Qed.
+Print Assumptions C14_compass_predicates_on_cardinals.
+
+Theorem C14_compass_predicates_on_diagonals d : (4 <= d < 8)%Z ->
+  isHorizontal d = false /\ isVertical d = false /\ isIncreasing d = false /\ isDecreasing d = false.
+Proof. exact (compass_predicates_on_diagonals d). Qed.
+Print Assumptions C14_compass_predicates_on_diagonals.
+
+Theorem C14_cardinalDirection_predicates p0 p1 :
+  let dx := ddx p0 p1 in let dy := ddy p0 p1 in let k := cardinalDirection p0 p1 in
+  (isHorizontalCard k = true <-> Qabs dy <= Qabs dx) /\
+  (isVerticalCard k = true <-> Qabs dx < Qabs dy) /\
+  (isIncreasingCard k = true <-> (Qabs dy <= Qabs dx /\ 0 < dx) \/ (Qabs dx < Qabs dy /\ 0 < dy)).
+Proof. exact (cardinalDirection_predicates p0 p1). Qed.
+Print Assumptions C14_cardinalDirection_predicates.
